@@ -143,6 +143,9 @@ func (t *Term) Int() int64 {
 
 func (t *Term) Bool() bool { return t.U != 0 }
 
+// casePreimage(name, k): all runes r with name(r) == k, for the case-mapping functions.
+var casePreimage func(name string, k rune) ([]rune, bool)
+
 var trueT = &Term{Op: OConst, S: SBool, U: 1}
 var falseT = &Term{Op: OConst, S: SBool, U: 0}
 
@@ -377,6 +380,16 @@ func (c *Ctx) Eq(a, b *Term) *Term {
 	// canonical order: const second
 	if a.IsConst() {
 		a, b = b, a
+	}
+	// case mapping compared with a constant: the finite preimage of that constant
+	if a.Op == OUF && b.IsConst() && casePreimage != nil {
+		if pre, ok := casePreimage(a.Name, rune(int32(b.U))); ok {
+			var res *Term = falseT
+			for _, p := range pre {
+				res = c.Or(res, c.Eq(a.A[0], mkBV(32, uint64(uint32(p)))))
+			}
+			return res
+		}
 	}
 	// (= (ite c k1 k2) k) folding for constant branches
 	if a.Op == OIte && b.IsConst() && a.A[1].IsConst() && a.A[2].IsConst() {
